@@ -695,6 +695,12 @@ def hostile_corpus(rng, side, prefix, quick=True):
     for k in (2, 9, 10, 11, 14, 15, 16):
         new("len-2^64-k", [Frame(OP_BIN, b"yy", True, mk() if k % 2 else None, declared=U64 + 1 - k)], "binary frame declaring 2^64-%d" % k)
     new("len-2^64-1", [Frame(OP_CONT, b"", True, None, declared=U64)], "continuation declaring 2^64-1", prefix_ok=False)
+    # the same lengths with a small configured maximum and a flood behind them: once they no longer throw
+    # they must not be buffered towards either
+    new("len-2^64-1", [Frame(OP_BIN, b"", True, mk(), declared=U64)], "binary frame declaring 2^64-1 with maximum %d, followed by %d KiB" % (SMALL_MAX, FLOOD // KIB),
+        cfgmax=SMALL_MAX, flood=FLOOD)
+    new("len-2^64-k", [Frame(OP_BIN, b"", True, None, declared=U64 - 8)], "unmasked binary frame declaring 2^64-9 with maximum %d, followed by %d KiB" % (SMALL_MAX, FLOOD // KIB),
+        cfgmax=SMALL_MAX, flood=FLOOD)
     # --- lengths that can never be satisfied / lie beyond the configured maximum
     for n, txt in ((1 << 63, "2^63"), ((1 << 63) - 1, "2^63-1"), (1 << 62, "2^62"), (1 << 40, "2^40"), (1 << 32, "2^32"), (1 << 31, "2^31"),
                    (16 * 1024 * 1024 + 1, "16MiB+1"), (SMALL_MAX * 256, "256 x maximum"), (FLOOD + 100000, "flood+100000")):
